@@ -197,3 +197,92 @@ Proof.
       rewrite Hrun. exists p'. split; [reflexivity|]. split; [|exact Hin].
       rewrite Hout. reflexivity.
 Qed.
+
+(* ---------- a whole conversation carried over the wire ---------- *)
+From Flipdot Require Import MessageP SerialP.
+
+Definition reply_frames (answers : list (option msg)) : list (option frame) := map (option_map frame_of_msg) answers.
+
+Lemma conv_tape_combine : forall ms answers, length ms = length answers ->
+  conv_tape (combine ms (reply_frames answers)) = answers_written answers.
+Proof.
+  induction ms as [|m ms IH]; intros [|a answers] Hlen; try discriminate; [reflexivity|].
+  injection Hlen as Hlen. cbn [reply_frames map combine]. fold (reply_frames answers).
+  destruct a as [r|]; cbn [option_map].
+  - rewrite conv_tape_some. unfold answers_written. cbn [map concat]. fold (answers_written answers).
+    now rewrite (IH answers Hlen).
+  - rewrite conv_tape_none. unfold answers_written. cbn [map concat app]. fold (answers_written answers).
+    exact (IH answers Hlen).
+Qed.
+
+Lemma conv_sent_combine : forall ms fs, length ms = length fs ->
+  conv_sent (combine ms fs) = concat (map sent ms).
+Proof.
+  induction ms as [|m ms IH]; intros [|f fs] Hlen; try discriminate; [reflexivity|].
+  injection Hlen as Hlen. cbn [combine]. rewrite conv_sent_cons. cbn [map concat]. now rewrite (IH fs Hlen).
+Qed.
+
+Lemma map_fst_combine {A B} : forall (l : list A) (l' : list B), length l = length l' -> map fst (combine l l') = l.
+Proof.
+  induction l as [|x l IH]; intros [|y l'] H; try discriminate; [reflexivity|].
+  injection H as H. cbn [combine map fst]. now rewrite (IH l' H).
+Qed.
+
+(* The controller's side says [ms], one after the other; the far side's bus answers [answers] (an answer exactly for the
+   messages that expect one).  Then, whatever the four byte streams do short of failing: the bridge forwards exactly [ms], in
+   order; it writes back exactly the answers' frames; and the controller's calls return exactly [answers], in order. *)
+Theorem wire_conversation : forall ms answers ws1 rs1 ws2 rs2,
+  Forall2 (fun m a => specific m /\ wf_msg m
+                      /\ match a with
+                         | Some r => response_expected m = true /\ specific r /\ wf_msg r
+                         | None => response_expected m = false
+                         end) ms answers ->
+  clean_w ws1 -> clean_r rs1 -> clean_w ws2 -> clean_r rs2 ->
+  exists pb pc,
+    (* the bridge, reading what the controller wrote *)
+    odk_run {| pt_in := {| r_content := concat (map sent ms); r_sched := rs2 |};
+               pt_out := {| w_out := []; w_sched := ws2 |} |} answers
+    = Some (map (fun m => (Ok tt, Some m)) ms, pb)
+    /\ w_out (pt_out pb) = answers_written answers
+    /\ r_content (pt_in pb) = []
+    (* the controller's serial bus, reading what the bridge wrote *)
+    /\ serial_run ms {| pt_in := {| r_content := w_out (pt_out pb); r_sched := rs1 |};
+                        pt_out := {| w_out := []; w_sched := ws1 |} |}
+       = Some (map (fun a => Ok a) answers, pc)
+    /\ w_out (pt_out pc) = concat (map sent ms)
+    /\ r_content (pt_in pc) = [].
+Proof.
+  intros ms answers ws1 rs1 ws2 rs2 F Hw1 Hr1 Hw2 Hr2.
+  assert (Hlen : length ms = length answers).
+  { clear -F. induction F; cbn; congruence. }
+  (* the bridge *)
+  destruct (bridge_conversation (map frame_of_msg ms) answers [] [] ws2 rs2) as (pb & Hb & Hbo & Hbi).
+  { now rewrite map_length. }
+  { clear -F. induction F as [|m a ms answers (_ & Hwf & _) F IH]; constructor; [apply wf_frame_of_msg; exact Hwf|exact IH]. }
+  { exact Hw2. } { exact Hr2. }
+  rewrite app_nil_r, map_map in Hb. unfold sent.
+  assert (Hfw : map (fun x : msg => (Ok tt : result oerr unit, Some (msg_of_frame (frame_of_msg x)))) ms
+                = map (fun m => (Ok tt, Some m)) ms).
+  { clear -F. induction F as [|m a ms answers (Hs & _ & _) F IH]; cbn [map]; [reflexivity|].
+    rewrite (msg_frame_msg m Hs), IH. reflexivity. }
+  rewrite map_map in Hb. rewrite Hfw in Hb.
+  exists pb. cbn [app] in Hbo.
+  (* the controller's bus *)
+  pose (conv := combine ms (reply_frames answers)).
+  assert (Hlf : length ms = length (reply_frames answers)) by (unfold reply_frames; now rewrite map_length).
+  destruct (serial_conversation conv [] [] ws1 rs1 Hw1 Hr1) as (pc & Hc & Hco & Hci).
+  { subst conv. clear -F. unfold reply_frames.
+    induction F as [|m a ms answers (_ & _ & Ha) F IH]; cbn [map combine]; constructor; [|exact IH].
+    unfold conv_ok. cbn [fst snd]. destruct a as [r|]; cbn [option_map].
+    - destruct Ha as (He & _ & Hwr). split; [exact He|apply wf_frame_of_msg; exact Hwr].
+    - exact Ha. }
+  subst conv. rewrite (map_fst_combine _ _ Hlf), app_nil_r, (conv_tape_combine _ _ Hlen) in Hc.
+  rewrite (conv_sent_combine _ _ Hlf) in Hco. cbn [app] in Hco.
+  assert (Hres : conv_results (combine ms (reply_frames answers)) = map (fun a => Ok a) answers).
+  { clear -F. unfold conv_results, reply_frames.
+    induction F as [|m a ms answers (_ & _ & Ha) F IH]; cbn [map combine]; [reflexivity|].
+    cbn [snd]. rewrite IH. destruct a as [r|]; cbn [option_map]; [|reflexivity].
+    destruct Ha as (_ & Hs & _). now rewrite (msg_frame_msg r Hs). }
+  rewrite Hres in Hc.
+  exists pc. rewrite Hbo. repeat split; assumption.
+Qed.
